@@ -231,4 +231,16 @@ example : (helpOptions Demo.prog (Demo.prog.node 0)).length = 7 ∧
 example : helpString (Demo.prog.opt 0) (helpFactor Demo.prog (Demo.prog.node 0)) =
     b "    --name|-n <string>    (default: \"def\")\n\n" := by decide
 
+/-- `HelpNone` contributes nothing: asking for it alone gives the empty text, and adding it to a list of sections
+changes nothing -/
+theorem help_none_prints_nothing (ext : Ext) (P : Prog) (n : Nat) (secs secs' : List Section) :
+    helpOutput ext P n [.none] = [] ∧
+    (secs ≠ [] → helpOutput ext P n (secs ++ .none :: secs') = helpOutput ext P n (secs ++ secs')) := by
+  constructor
+  · simp [helpOutput, helpSection]
+  · intro h
+    have h1 : (secs ++ Section.none :: secs').isEmpty = false := by cases secs <;> simp_all
+    have h2 : (secs ++ secs').isEmpty = false := by cases secs <;> simp_all
+    simp [helpOutput, h1, h2, helpSection]
+
 end GoModel
